@@ -260,9 +260,32 @@ class Acc:
 
 
 # --------------------------------------------------------------------------- sharding
+def _own_process_locks():
+    """The library guards its class cache with a multiprocessing lock created at import time;
+    forked workers would all share that one OS semaphore and queue up behind each other although
+    they share no memory.  Each worker therefore replaces every process-shared lock it finds as
+    a class attribute in the library's perm_sets modules by a fresh one of the same kind
+    (semantics within the worker are unchanged; a lock leaked by one worker can no longer block
+    the others)."""
+    import multiprocessing.synchronize as mps
+
+    for name, mod in list(sys.modules.items()):
+        if not name.startswith("permuta"):
+            continue
+        for obj in list(vars(mod).values()):
+            if isinstance(obj, type) and getattr(obj, "__module__", "").startswith("permuta"):
+                for attr, val in list(vars(obj).items()):
+                    if isinstance(val, mps.RLock):
+                        setattr(obj, attr, multiprocessing.RLock())
+                    elif isinstance(val, mps.Lock):
+                        setattr(obj, attr, multiprocessing.Lock())
+
+
 def _shard_entry(args):
     fn, prop, shard, nshards, extra = args
     acc = Acc(prop)
+    if multiprocessing.current_process().name != "MainProcess":
+        _own_process_locks()
     try:
         fn(acc, shard, nshards, *extra)
     except HarnessError as exc:
